@@ -47,13 +47,21 @@ def cell (r : List α) (i : Nat) : α := r.getD i default
 def labelled (f : Frame α) (l : Label) : List (List α × Label) :=
   f.rows.map fun r => (r, l)
 
+/-- a trace exists only for a label that has points -/
+def traceOf {β : Type} (l : Label) (xs : List β) : List (Label × List β) :=
+  if xs.isEmpty then [] else [(l, xs)]
+
+/-- the points carrying label `l`, in row order -/
+def pick {β : Type} (pts : List (β × Label)) (l : Label) : List β :=
+  (pts.filter fun p => p.2 = l).map (·.1)
+
 /-- `px.scatter(..., color='Data')`: one trace per label, in order of first appearance -/
 def splitByLabel {β : Type} (pts : List (β × Label)) : List (Label × List β) :=
-  let pick (l : Label) := (pts.filter fun p => p.2 = l).map (·.1)
-  let first : List Label := match pts with
-    | [] => []
-    | p :: _ => if p.2 = .real then [.real, .synthetic] else [.synthetic, .real]
-  (first.map fun l => (l, pick l)).filter fun t => !t.2.isEmpty
+  match pts with
+  | [] => []
+  | p :: _ =>
+    if p.2 = .real then traceOf .real (pick pts .real) ++ traceOf .synthetic (pick pts .synthetic)
+    else traceOf .synthetic (pick pts .synthetic) ++ traceOf .real (pick pts .real)
 
 /-- the column list used by `_generate_scatter_*_plot` (label column included) -/
 def plotColumns (frameCols : List String) (columns : Option (List String)) : List String :=
